@@ -373,6 +373,9 @@ def run_block(block, env, rows, tab, pivot_var, obs_label='OBS'):
     stabilizer phase was written (or None)."""
     phase_at = []
 
+    class _Leave(Exception):
+        pass
+
     def ex(stmts):
         for st in stmts:
             if isinstance(st, ast.If):
@@ -382,6 +385,8 @@ def run_block(block, env, rows, tab, pivot_var, obs_label='OBS'):
                     raise BlockError('test %s: %s' % (norm(st.test), e))
                 ex(st.body if c else st.orelse)
                 continue
+            if isinstance(st, (ast.Continue, ast.Break, ast.Return)):
+                raise _Leave()          # a guard clause ends the work on this observable
             if isinstance(st, (ast.Pass, ast.Assert, ast.Expr)):
                 continue
             if _is_view_swap(st, tab):
@@ -440,7 +445,10 @@ def run_block(block, env, rows, tab, pivot_var, obs_label='OBS'):
                 continue
             if isinstance(st, (ast.For, ast.While)):
                 raise BlockError('loop inside the replacement block')
-    ex(block)
+    try:
+        ex(block)
+    except _Leave:
+        pass
     return phase_at
 
 
